@@ -51,3 +51,453 @@ def gen_pixels(ctx):
     ctx.write_generated("Pixels", src)
     return {"expectedChannels": dict(expected), "colorModeChannels": dict(cmch), "pilChannels": dict(pilch),
             "pilMode": [list(x) for x in pilmode], "colorModeOf": dict(colormode)}
+
+
+# =================================================================================================
+# The SAMPLE ARITHMETIC (Model/PixelSamples.lean), read from the AST of the working tree on every run
+# -> Generated/PixelSamples.lean; tied by `PsdVerif.C07.samples_tied` (Props/C07Samples.lean).
+#
+#   api/layers.py     PixelLayer.frompil: the nested `plane()` statement by statement and, per depth branch, the operator
+#                     and the constant applied to the samples and the dtypes of every `astype`; the top-level `if`s of
+#                     the function (bitmap -> L, alpha taken before the conversion, conversion to the document's mode,
+#                     CMYK inversion, depth/version of the document, opaque transparency) in source order; what is
+#                     handed to `set_data`; every `ImageChops.invert` with its guard;
+#   api/psd_image.py  PSDImage.frompil statement by statement; the default depth of `_make_header` and its assertion;
+#   api/pil_io.py     `_create_image`: per depth the `frombytes` mode / raw mode, the lambda of `point` evaluated the way
+#                     PIL evaluates it (a linear form: scale and offset, exact rationals), the `convert` target;
+#                     `post_process`; which functions call `_remove_white_background`; its ImageMath expression;
+#   api/numpy_io.py   `_parse_array`: per depth the `frombuffer` dtype, the `astype` dtype, the divisor; every call in
+#                     the branches (`np.round`, `astype`, ...); `_remove_background`; every `constant - x` of the module
+#                     (a colour inversion on the NumPy path would be one).
+# Anything not found is written as the sentinel `<not found>` / an empty table: the file is ALWAYS written, the tie then
+# fails - a broken tie (VIOLATION), never an infrastructure error.
+# =================================================================================================
+import ast
+from fractions import Fraction
+
+from core import REPO
+
+MISSING = "<not found>"
+_API = REPO / "src" / "psd_tools" / "api"
+
+
+def _method(tree, cls, name):
+    for n in ast.walk(tree):
+        if isinstance(n, ast.ClassDef) and n.name == cls:
+            for m in n.body:
+                if isinstance(m, ast.FunctionDef) and m.name == name:
+                    return m
+    return None
+
+
+def _function(tree, name):
+    for n in tree.body:
+        if isinstance(n, ast.FunctionDef) and n.name == name:
+            return n
+    return None
+
+
+def _body(fn):
+    return [st for st in fn.body
+            if not (isinstance(st, ast.Expr) and isinstance(st.value, ast.Constant))
+            and not isinstance(st, (ast.Import, ast.ImportFrom))]
+
+
+def _flat(stmts):
+    out = []
+    for st in stmts:
+        if isinstance(st, (ast.Import, ast.ImportFrom)):
+            continue
+        if isinstance(st, ast.Expr) and isinstance(st.value, ast.Constant) and isinstance(st.value.value, str):
+            continue
+        if isinstance(st, ast.Expr) and isinstance(st.value, ast.Call) and ast.unparse(st.value.func).startswith("logger."):
+            continue            # log messages are not arithmetic
+        if isinstance(st, ast.If):
+            out.append("if %s: { %s }" % (ast.unparse(st.test), "; ".join(_flat(st.body)))
+                       + (" else { %s }" % "; ".join(_flat(st.orelse)) if st.orelse else ""))
+        elif isinstance(st, ast.For):
+            out.append("for %s in %s: { %s }" % (ast.unparse(st.target), ast.unparse(st.iter), "; ".join(_flat(st.body))))
+        elif isinstance(st, ast.FunctionDef):
+            out.append("def %s(%s): { %s }" % (st.name, ast.unparse(st.args), "; ".join(_flat(st.body))))
+        else:
+            out.append(ast.unparse(st))
+    return out
+
+
+def _depth_of(test):
+    """the constant N of a `depth == N` comparison inside a test"""
+    for n in ast.walk(test):
+        if isinstance(n, ast.Compare) and len(n.ops) == 1 and isinstance(n.ops[0], ast.Eq) \
+                and ast.unparse(n.left) == "depth" and isinstance(n.comparators[0], ast.Constant) \
+                and isinstance(n.comparators[0].value, int):
+            return n.comparators[0].value
+    return None
+
+
+def _frac(v):
+    if isinstance(v, bool) or not isinstance(v, (int, float)):
+        return None
+    return Fraction(v)
+
+
+def _arith(expr):
+    """[(operator, constant as a Fraction)] of every binary operation with a numeric constant in `expr`, innermost first"""
+    found = []
+    for n in ast.walk(expr):
+        if isinstance(n, ast.BinOp):
+            for side in (n.right, n.left):
+                if isinstance(side, ast.Constant) and _frac(side.value) is not None:
+                    found.append((n.lineno, n.col_offset, -(n.end_col_offset or 0), type(n.op).__name__, _frac(side.value)))
+                    break
+    return [(op, c) for *_p, op, c in sorted(found, key=lambda t: (t[0], t[1], t[2]), reverse=True)]
+
+
+def _calls(expr):
+    """names of every call in `expr` in source order (attribute calls by their attribute: `x.astype(..)` -> `astype`;
+    `np.round(..)` -> `np.round`)"""
+    found = []
+    for n in ast.walk(expr):
+        if isinstance(n, ast.Call):
+            f = n.func
+            if isinstance(f, ast.Attribute) and isinstance(f.value, ast.Name) and f.value.id in ("np", "Image", "ImageChops", "ImageMath"):
+                name = f.value.id + "." + f.attr
+            elif isinstance(f, ast.Attribute):
+                name = f.attr
+            else:
+                name = ast.unparse(f)
+            found.append((n.end_lineno, n.end_col_offset, name))
+    return [x for *_p, x in sorted(found)]
+
+
+def _astype_dtypes(expr):
+    out = []
+    for n in ast.walk(expr):
+        if isinstance(n, ast.Call) and isinstance(n.func, ast.Attribute) and n.func.attr in ("astype", "frombuffer") and n.args:
+            a = n.args[-1] if n.func.attr == "frombuffer" else n.args[0]
+            out.append((n.end_lineno, n.end_col_offset, n.func.attr + ":" + (a.value if isinstance(a, ast.Constant) and isinstance(a.value, str) else ast.unparse(a))))
+    return [x for *_p, x in sorted(out)]
+
+
+def _linear(node, var):
+    """the lambda body as PIL's `_E` evaluates it: (scale, offset) of a linear form in `var`, or None"""
+    if isinstance(node, ast.Name) and node.id == var:
+        return Fraction(1), Fraction(0)
+    if isinstance(node, ast.Constant) and _frac(node.value) is not None:
+        return Fraction(0), _frac(node.value)
+    if isinstance(node, ast.UnaryOp) and isinstance(node.op, ast.USub):
+        r = _linear(node.operand, var)
+        return None if r is None else (-r[0], -r[1])
+    if isinstance(node, ast.BinOp):
+        a, b = _linear(node.left, var), _linear(node.right, var)
+        if a is None or b is None:
+            return None
+        if isinstance(node.op, ast.Add):
+            return a[0] + b[0], a[1] + b[1]
+        if isinstance(node.op, ast.Sub):
+            return a[0] - b[0], a[1] - b[1]
+        if isinstance(node.op, ast.Mult):
+            if a[0] == 0:
+                return a[1] * b[0], a[1] * b[1]
+            if b[0] == 0:
+                return a[0] * b[1], a[1] * b[1]
+            return None
+        if isinstance(node.op, ast.Div) and b[0] == 0 and b[1] != 0:
+            return a[0] / b[1], a[1] / b[1]
+    return None
+
+
+def _if_chain(fn):
+    """[(test, body statements)] of the top-level if / elif chain of a function, then ('else', ...)"""
+    out = []
+    for st in _body(fn):
+        while isinstance(st, ast.If):
+            out.append((st.test, st.body))
+            if len(st.orelse) == 1 and isinstance(st.orelse[0], ast.If):
+                st = st.orelse[0]
+            else:
+                if st.orelse:
+                    out.append((None, st.orelse))
+                st = None
+    return out
+
+
+def read_pixel_samples():
+    info = {}
+    notes = []
+    # ---------------- layers.py
+    info.update(plane_body=[MISSING], plane_arith=[], frompil_ifs=[MISSING], set_data_args=[MISSING], layer_inversions=[(MISSING, MISSING)],
+                depth_default=MISSING)
+    try:
+        tree = ast.parse((_API / "layers.py").read_text())
+        fn = _method(tree, "PixelLayer", "frompil")
+        if fn is not None:
+            body = _body(fn)
+            info["frompil_ifs"] = [x for st in body if isinstance(st, ast.If) for x in _flat([st])]
+            for st in body:
+                if isinstance(st, ast.Assign) and ast.unparse(st.targets[0]) == "depth":
+                    info["depth_default"] = ast.unparse(st.value)
+            plane = [st for st in body if isinstance(st, ast.FunctionDef) and st.name == "plane"]
+            if plane:
+                info["plane_body"] = _flat(_body(plane[0]))
+                rows = []
+                for st in _body(plane[0]):
+                    if isinstance(st, ast.If):
+                        d = _depth_of(st.test)
+                        rets = [s for s in st.body if isinstance(s, ast.Return) and s.value is not None]
+                        if d is not None and len(rets) == 1:
+                            ar = _arith(rets[0].value)
+                            rows.append((d, [(op, c.numerator, c.denominator) for op, c in ar], _astype_dtypes(rets[0].value),
+                                         _calls(rets[0].value)))
+                info["plane_arith"] = rows
+            args = []
+            for n in ast.walk(fn):
+                if isinstance(n, ast.Call) and isinstance(n.func, ast.Attribute) and n.func.attr == "set_data" and n.args:
+                    args.append((n.lineno, n.col_offset, ast.unparse(n.args[0]) + " | " + ", ".join(ast.unparse(a) for a in n.args[1:])))
+            info["set_data_args"] = [x for *_p, x in sorted(args)]
+            info["layer_inversions"] = _inversions(fn)
+    except Exception as e:  # noqa
+        notes.append(f"layers.py: {type(e).__name__}: {e}")
+    # ---------------- psd_image.py
+    info.update(doc_frompil=[MISSING], header_depth_default=MISSING, header_asserts=[MISSING], doc_inversions=[(MISSING, MISSING)])
+    try:
+        tree = ast.parse((_API / "psd_image.py").read_text())
+        fn = _method(tree, "PSDImage", "frompil")
+        if fn is not None:
+            info["doc_frompil"] = _flat(_body(fn))
+            info["doc_inversions"] = _inversions(fn)
+        mh = _method(tree, "PSDImage", "_make_header")
+        if mh is not None:
+            args = mh.args.args
+            defaults = [None] * (len(args) - len(mh.args.defaults)) + list(mh.args.defaults)
+            for a, d in zip(args, defaults):
+                if a.arg == "depth" and d is not None:
+                    info["header_depth_default"] = ast.unparse(d)
+            info["header_asserts"] = [ast.unparse(st.test) for st in _body(mh) if isinstance(st, ast.Assert) and "depth" in ast.unparse(st.test)]
+    except Exception as e:  # noqa
+        notes.append(f"psd_image.py: {type(e).__name__}: {e}")
+    # ---------------- pil_io.py
+    info.update(create_image=[MISSING], create_rows=[], post_process=[MISSING], unmatte_callers=[MISSING], unmatte_exprs=[MISSING],
+                pil_inversions=[(MISSING, MISSING)], layer_tail=MISSING, doc_tail=[MISSING], pil_get_data=[MISSING])
+    try:
+        tree = ast.parse((_API / "pil_io.py").read_text())
+        fn = _function(tree, "_create_image")
+        if fn is not None:
+            chain = _if_chain(fn)
+            info["create_image"] = [("else" if t is None else ast.unparse(t)) + ": " + "; ".join(_flat(b)) for t, b in chain]
+            rows = []
+            for t, b in chain:
+                d = _depth_of(t) if t is not None else None
+                if d is None:
+                    continue
+                fb, lam, conv = [MISSING, MISSING], None, MISSING
+                nlam = 0
+                for st in b:
+                    for n in ast.walk(st):
+                        if isinstance(n, ast.Call) and ast.unparse(n.func) == "Image.frombytes":
+                            strs_ = [a.value for a in n.args if isinstance(a, ast.Constant) and isinstance(a.value, str)]
+                            fb = [strs_[0] if strs_ else MISSING, strs_[-1] if len(strs_) > 1 else MISSING]
+                        if isinstance(n, ast.Lambda):
+                            nlam += 1
+                            if len(n.args.args) == 1:
+                                lam = _linear(n.body, n.args.args[0].arg)
+                        if isinstance(n, ast.Call) and isinstance(n.func, ast.Attribute) and n.func.attr == "convert" and n.args \
+                                and isinstance(n.args[0], ast.Constant):
+                            conv = n.args[0].value
+                if nlam == 0:
+                    sc = (1, 1, 0, 1)          # no `point`: the identity
+                    conv = "-" if conv == MISSING else conv
+                elif lam is None or nlam > 1:
+                    sc = (0, 0, 0, 0)          # not a linear form: sentinel
+                else:
+                    sc = (lam[0].numerator, lam[0].denominator, lam[1].numerator, lam[1].denominator)
+                rows.append((d, fb[0], fb[1], sc, conv, _calls(ast.Module(body=b, type_ignores=[]))))
+            info["create_rows"] = rows
+        pp = _function(tree, "post_process")
+        if pp is not None:
+            info["post_process"] = _flat(_body(pp))
+            info["pil_inversions"] = _inversions(pp)
+        callers = []
+        for f in tree.body:
+            if isinstance(f, ast.FunctionDef) and f.name != "_remove_white_background":
+                if any(isinstance(n, ast.Call) and ast.unparse(n.func) == "_remove_white_background" for n in ast.walk(f)):
+                    callers.append(f.name)
+        info["unmatte_callers"] = callers
+        um = _function(tree, "_remove_white_background")
+        if um is not None:
+            ex = []
+            for n in ast.walk(um):
+                if isinstance(n, ast.Lambda):
+                    ex.append((n.lineno, n.col_offset, ast.unparse(n.body)))
+                if isinstance(n, ast.Call) and ast.unparse(n.func) == "ImageMath.eval" and n.args:
+                    try:
+                        ex.append((n.lineno, n.col_offset, ast.literal_eval(n.args[0])))
+                    except Exception:  # noqa
+                        ex.append((n.lineno, n.col_offset, ast.unparse(n.args[0])))
+            info["unmatte_exprs"] = [x for *_p, x in sorted(ex)]
+        info["pil_get_data"] = _get_data_calls(tree)
+        lay = _function(tree, "convert_layer_to_pil")
+        if lay is not None:
+            rets = [st for st in _body(lay) if isinstance(st, ast.Return)]
+            info["layer_tail"] = ast.unparse(rets[-1]) if rets else MISSING
+        doc = _function(tree, "convert_image_data_to_pil")
+        if doc is not None:
+            info["doc_tail"] = _flat(_body(doc)[-2:])
+    except Exception as e:  # noqa
+        notes.append(f"pil_io.py: {type(e).__name__}: {e}")
+    # ---------------- numpy_io.py
+    info.update(parse_array=[MISSING], parse_rows=[], remove_background=[MISSING], numpy_const_minus=[MISSING],
+                numpy_get_data=[MISSING])
+    try:
+        tree = ast.parse((_API / "numpy_io.py").read_text())
+        fn = _function(tree, "_parse_array")
+        if fn is not None:
+            chain = _if_chain(fn)
+            info["parse_array"] = [("else" if t is None else ast.unparse(t)) + ": " + "; ".join(_flat(b)) for t, b in chain]
+            rows = []
+            for t, b in chain:
+                d = _depth_of(t) if t is not None else None
+                if d is None:
+                    continue
+                mod = ast.Module(body=b, type_ignores=[])
+                ar = _arith(mod)
+                rows.append((d, _astype_dtypes(mod), [(op, c.numerator, c.denominator) for op, c in ar], _calls(mod)))
+            info["parse_rows"] = rows
+        info["numpy_get_data"] = _get_data_calls(tree)
+        rb = _function(tree, "_remove_background")
+        if rb is not None:
+            info["remove_background"] = _flat(_body(rb))
+        subs = []
+        for n in ast.walk(tree):
+            if isinstance(n, ast.BinOp) and isinstance(n.op, ast.Sub) and isinstance(n.left, ast.Constant):
+                subs.append((n.lineno, n.col_offset, ast.unparse(n)))
+            if isinstance(n, ast.Call) and "invert" in ast.unparse(n.func):
+                subs.append((n.lineno, n.col_offset, ast.unparse(n)))
+        info["numpy_const_minus"] = [x for *_p, x in sorted(subs)]
+    except Exception as e:  # noqa
+        notes.append(f"numpy_io.py: {type(e).__name__}: {e}")
+    return info, notes
+
+
+def _get_data_calls(tree):
+    """every `x.get_data(...)` call of a module that decodes stored planes (function: call), in source order: the depth and
+    the file version handed to the channel decoders"""
+    out = []
+
+    def own_nodes(f):
+        stack = list(f.body)
+        while stack:
+            n = stack.pop()
+            if isinstance(n, ast.FunctionDef):
+                continue            # a nested function reports its own calls
+            yield n
+            stack.extend(ast.iter_child_nodes(n))
+    for f in ast.walk(tree):
+        if isinstance(f, ast.FunctionDef):
+            for n in own_nodes(f):
+                if isinstance(n, ast.Call) and isinstance(n.func, ast.Attribute) and n.func.attr == "get_data" \
+                        and any(k in ast.unparse(n) for k in ("depth", "header")):
+                    out.append((n.lineno, n.col_offset, f.name + ": " + ast.unparse(n)))
+    return [x for *_p, x in sorted(out)]
+
+
+def _inversions(fn):
+    """[(guard, statement)] of every statement of `fn` that calls something named `invert`, or computes `constant - x`"""
+    out = []
+
+    def visit(stmts, guard):
+        for st in stmts:
+            if isinstance(st, ast.If):
+                g = ast.unparse(st.test) if not guard else guard + " and " + ast.unparse(st.test)
+                visit(st.body, g)
+                visit(st.orelse, ("not (%s)" % ast.unparse(st.test)) if not guard else guard + " and not (%s)" % ast.unparse(st.test))
+            elif isinstance(st, (ast.For, ast.While, ast.With, ast.Try)):
+                visit(getattr(st, "body", []), guard)
+            elif isinstance(st, ast.FunctionDef):
+                visit(st.body, guard)
+            else:
+                hit = any((isinstance(n, ast.Call) and "invert" in ast.unparse(n.func)) or
+                          (isinstance(n, ast.BinOp) and isinstance(n.op, ast.Sub) and isinstance(n.left, ast.Constant))
+                          for n in ast.walk(st))
+                if hit and not isinstance(st, (ast.Import, ast.ImportFrom)):
+                    out.append((guard or "-", ast.unparse(st)))
+    visit(_body(fn), "")
+    return out
+
+
+def gen_pixel_samples(ctx):
+    try:
+        info, notes = read_pixel_samples()
+    except Exception as e:  # noqa   (never an infrastructure error: sentinels)
+        info, notes = None, [f"{type(e).__name__}: {e}"]
+    if info is None:
+        info = dict(plane_body=[MISSING], plane_arith=[], frompil_ifs=[MISSING], set_data_args=[MISSING],
+                    layer_inversions=[(MISSING, MISSING)], depth_default=MISSING, doc_frompil=[MISSING],
+                    header_depth_default=MISSING, header_asserts=[MISSING], doc_inversions=[(MISSING, MISSING)],
+                    create_image=[MISSING], create_rows=[], post_process=[MISSING], unmatte_callers=[MISSING],
+                    unmatte_exprs=[MISSING], pil_inversions=[(MISSING, MISSING)], layer_tail=MISSING, doc_tail=[MISSING],
+                    parse_array=[MISSING], parse_rows=[], remove_background=[MISSING], numpy_const_minus=[MISSING],
+                    pil_get_data=[MISSING], numpy_get_data=[MISSING])
+
+    def strs(xs):
+        return "[" + ", ".join(lean_str(x) for x in xs) + "]"
+
+    def pairs(xs):
+        return "[" + ", ".join(f"({lean_str(a)}, {lean_str(b)})" for a, b in xs) + "]"
+
+    def ops(xs):
+        return "[" + ", ".join(f"({lean_str(op)}, ({n} : Int), {d})" for op, n, d in xs) + "]"
+
+    plane_arith = "[" + ", ".join(f"({d}, {ops(ar)}, {strs(dt)}, {strs(cl)})" for d, ar, dt, cl in info["plane_arith"]) + "]"
+    create_rows = "[" + ", ".join(
+        f"({d}, {lean_str(m)}, {lean_str(raw)}, (({sc[0]} : Int), {sc[1]}, ({sc[2]} : Int), {sc[3]}), {lean_str(conv)}, {strs(cl)})"
+        for d, m, raw, sc, conv, cl in info["create_rows"]) + "]"
+    parse_rows = "[" + ", ".join(f"({d}, {strs(dt)}, {ops(ar)}, {strs(cl)})" for d, dt, ar, cl in info["parse_rows"]) + "]"
+    src = (
+        "\nnamespace PsdVerif.Generated.PixelSamples\n\n"
+        "/-! api/layers.py `PixelLayer.frompil` -/\n\n"
+        f"/-- the nested `plane(band)`, statement by statement -/\ndef planeBody : List String := {strs(info['plane_body'])}\n"
+        "/-- per `depth == N` branch of `plane`: the binary operations with a numeric constant (operator, numerator,\n"
+        "denominator; innermost first), the dtypes of `astype`, every call in source order -/\n"
+        f"def planeArith : List (Nat × List (String × Int × Nat) × List String × List String) := {plane_arith}\n"
+        f"/-- the top-level `if` statements of the function, in source order -/\ndef frompilIfs : List String := {strs(info['frompil_ifs'])}\n"
+        f"/-- the depth without a document -/\ndef depthDefault : String := {lean_str(info['depth_default'])}\n"
+        f"/-- what is handed to `set_data` (plane | the other arguments) -/\ndef setDataArgs : List String := {strs(info['set_data_args'])}\n"
+        f"/-- every inversion (guard, statement) -/\ndef layerInversions : List (String × String) := {pairs(info['layer_inversions'])}\n\n"
+        "/-! api/psd_image.py `PSDImage.frompil`, `_make_header` -/\n\n"
+        f"def docFrompil : List String := {strs(info['doc_frompil'])}\n"
+        f"def docInversions : List (String × String) := {pairs(info['doc_inversions'])}\n"
+        f"def headerDepthDefault : String := {lean_str(info['header_depth_default'])}\n"
+        f"def headerAsserts : List String := {strs(info['header_asserts'])}\n\n"
+        "/-! api/pil_io.py -/\n\n"
+        f"/-- the if / elif chain of `_create_image` -/\ndef createImage : List String := {strs(info['create_image'])}\n"
+        "/-- per depth: `frombytes` mode, raw mode, the lambda of `point` as the linear form PIL makes of it\n"
+        "(scale numerator, denominator, offset numerator, denominator; `(1, 1, 0, 1)` without `point`, `(0, 0, 0, 0)` when it is\n"
+        "not linear), the `convert` target, every call in source order -/\n"
+        f"def createRows : List (Nat × String × String × (Int × Nat × Int × Nat) × String × List String) := {create_rows}\n"
+        f"def postProcess : List String := {strs(info['post_process'])}\n"
+        f"def pilInversions : List (String × String) := {pairs(info['pil_inversions'])}\n"
+        f"/-- the functions that call `_remove_white_background` -/\ndef unmatteCallers : List String := {strs(info['unmatte_callers'])}\n"
+        f"/-- its ImageMath expressions (lambda_eval, eval) -/\ndef unmatteExprs : List String := {strs(info['unmatte_exprs'])}\n"
+        f"/-- the last statements of the two export functions -/\ndef layerTail : String := {lean_str(info['layer_tail'])}\n"
+        f"def docTail : List String := {strs(info['doc_tail'])}\n\n"
+        "/-! api/numpy_io.py -/\n\n"
+        f"/-- the if / elif chain of `_parse_array` -/\ndef parseArray : List String := {strs(info['parse_array'])}\n"
+        "/-- per depth: the dtypes of `frombuffer` / `astype`, the binary operations with a constant, every call -/\n"
+        f"def parseRows : List (Nat × List String × List (String × Int × Nat) × List String) := {parse_rows}\n"
+        f"def removeBackground : List String := {strs(info['remove_background'])}\n"
+        f"/-- every `constant - x` / `invert` of the module -/\ndef numpyConstMinus : List String := {strs(info['numpy_const_minus'])}\n"
+        "/-- the calls that decode stored planes (function: call): which depth and file version they pass -/\n"
+        f"def pilGetData : List String := {strs(info['pil_get_data'])}\n"
+        f"def numpyGetData : List String := {strs(info['numpy_get_data'])}\n\n"
+        "end PsdVerif.Generated.PixelSamples\n"
+    )
+    ctx.write_generated("PixelSamples", src)
+    for n in notes:
+        ctx.notes.append("extract_c07 (samples): " + n + " (sentinels written, the tie fails)")
+    missing = [k for k, v in info.items() if v in (MISSING, [MISSING], [(MISSING, MISSING)], [])
+               and k not in ("numpy_const_minus",)]
+    if info.get("numpy_const_minus") == [MISSING]:
+        missing.append("numpy_const_minus")
+    if missing:
+        ctx.notes.append("extract_c07 (samples): not found in the current source (sentinel written, the tie fails): " + ", ".join(missing))
+    return info
